@@ -63,6 +63,14 @@ def c_keyfail(v):
     raise KeyError("kaboom")
 
 
+def c_failrt(v):
+    raise NotImplementedError("not implemented")
+
+
+def c_failattr(v):
+    raise AttributeError("no such attribute")
+
+
 def c_prefix_x(v):
     if isinstance(v, str):
         return 'x' + v
@@ -78,7 +86,7 @@ def c_first(v):
 
 
 COERCERS = {'to_int': c_to_int, 'to_str': c_to_str, 'inc': c_inc, 'wrap': c_wrap, 'ident': c_ident, 'none': c_none,
-            'fail': c_fail, 'keyfail': c_keyfail, 'prefix_x': c_prefix_x, 'first': c_first}
+            'fail': c_fail, 'keyfail': c_keyfail, 'failrt': c_failrt, 'failattr': c_failattr, 'prefix_x': c_prefix_x, 'first': c_first}
 for _n, _f in COERCERS.items():
     _f._pool_name = _n
 
@@ -96,12 +104,14 @@ def make_setter(name):
                 raise ValueError("setter failed")
             if kind == 'rdk':
                 raise KeyError("setter raised KeyError itself")
+            if kind == 'rdr':
+                raise NotImplementedError("setter not implemented")
             return vals
     s._pool_name = name
     return s
 
 
-SETTER_NAMES = ['const5'] + ['%s_%s' % (k, l) for k in ('rd', 'rdx', 'rdk')
+SETTER_NAMES = ['const5'] + ['%s_%s' % (k, l) for k in ('rd', 'rdx', 'rdk', 'rdr')
                              for l in ('', 'a', 'b', 'c', 'ab', 'ba', 'bc', 'cd', 'abc', 'd', 'e', 'de', 'ea', 'f', 'x', 'y', 'xy', 'yx')]
 _SETTERS = {}
 
